@@ -60,6 +60,14 @@ def check_word(sh, w, tables, P, cls=None):
         return
     if not claims:
         sh.case(w, False, cls)
+        # the decoder entry point itself must refuse the word too (whatever it decoded before: a dispatch memo keyed on
+        # part of the word would accept a reserved-bit variant after its well-formed sibling)
+        try:
+            m = P.ppc_mn(w)
+        except Exception:
+            m = None
+        if m is not None:
+            sh.violation('decodes-word-no-class-claims/%s' % m.__class__.__name__, 'ppc_mn(0x%08x) returns a %s although no class accepts the word' % (w, m.__class__.__name__), wit)
         if arch is not None:
             sh.counters['architected_but_unclaimed(not in the statement)'] += 1
             sh.extra.setdefault('unclaimed_architected', set()).add(arch)
